@@ -164,8 +164,8 @@ func init() {
 				kmax := 3
 				for k := 1; k <= kmax; k++ {
 					pats := versPatterns(k)
-					if tier != "thorough" && len(pats) > 40 {
-						pats = thinPats(pats, 40)
+					if tier != "thorough" && len(pats) > 24 {
+						pats = thinPats(pats, 24)
 					}
 					for _, pat := range pats {
 						var trs []string
@@ -186,7 +186,7 @@ func init() {
 						for i := 0; i < k; i++ {
 							l := len(pat[i]) + vlen
 							for j := 0; j <= l; j++ {
-								if tier != "thorough" && k == 3 && j%2 == 1 {
+								if tier != "thorough" && k == 3 && j%3 != 0 {
 									continue
 								}
 								trs = append(trs, fmt.Sprintf("ws:%d:%d", i, j))
@@ -200,7 +200,8 @@ func init() {
 						for _, tr := range trs {
 							w := ArgStr("")
 							if strings.HasPrefix(tr, "ws:") {
-								w = ArgTmpl("{w}")
+								// spaces only: tab, CR and LF are non-printable and must be rejected (C17)
+								w = ArgStr(" ")
 							}
 							out = append(out, &Config{ID: fmt.Sprintf("C16/%s/%s/%s", scheme, strings.Join(pat, " "), tr), Pkg: zzhPkg, Func: "C16Inv",
 								Args: []ArgSpec{ArgStr(eco), ArgStr(scheme), ArgStr(strings.Join(pat, " ")), ArgTmpl(v[0]), ArgTmpl(v[1]), ArgTmpl(v[2]), ArgTmpl(probe), ArgStr(tr), w}})
@@ -211,7 +212,7 @@ func init() {
 			return out
 		},
 		Bounds: func(tier string) string {
-			return "11 schemes; comparator patterns with k <= 3 (quick: at most 40 patterns per k); all permutations, one duplicate at every position, one empty constraint at every position, one white-space byte (space, tab, CR, LF) at every (quick: every second, for k=3) byte position of every constraint"
+			return "11 schemes; comparator patterns with k <= 3 (quick: at most 24 patterns per k); all permutations, one duplicate at every position, one empty constraint at every position, one space at every (quick: every third, for k=3) byte position of every constraint (tab, CR and LF are non-printable and belong to C17)"
 		},
 	})
 
